@@ -60,6 +60,32 @@ pub fn cases(thorough: bool) -> Vec<ECase> {
     // send window shared by three streams, one of which is reset while acknowledged ranges may sit behind a gap
     add("sendwin6000-reset".into(), &|c| c.client.send_window = Some(6000), plan(vec![StreamPlan { dir: Dir::Uni, len: 12000, chunk: 1000, end: End::Reset { after: 7000, code: 6 } }, sp(Dir::Uni, 8000, 1000), sp(Dir::Uni, 8000, 1000)]), plan(vec![]), vec![], (6, 30));
     add("sendwin2500-reset-late".into(), &|c| c.client.send_window = Some(2500), plan(vec![StreamPlan { dir: Dir::Uni, len: 9000, chunk: 700, end: End::Reset { after: 4200, code: 6 } }, sp(Dir::Bi, 6000, 500)]), plan(vec![]), vec![], (8, 32));
+    // asymmetric per-stream limits: the three initial_max_stream_data_* parameters differ (quinn itself
+    // always advertises one value for all three, so the transport parameters are re-encoded on the
+    // way; the advertised values only bind the sender, the receiver's real window is larger)
+    {
+        use crate::checks::c03::{tp_apply, varbytes, TpEdit};
+        let mk = |local: u64, remote: u64, uni: u64| -> crate::mtls::ParamsOverride {
+            std::sync::Arc::new(move |orig: &[u8]| tp_apply(orig, &TpEdit::Multi(vec![TpEdit::Set(0x05, varbytes(local)), TpEdit::Set(0x06, varbytes(remote)), TpEdit::Set(0x07, varbytes(uni))])))
+        };
+        for (name, a, b) in [("asym-msd-local-small", (300u64, 2000u64, 700u64), (250u64, 1800u64, 650u64)), ("asym-msd-remote-small", (2000, 300, 700), (1800, 250, 650)), ("asym-msd-uni-small", (2000, 1800, 200), (1900, 1700, 150))] {
+            let (so, co) = (mk(a.0, a.1, a.2), mk(b.0, b.1, b.2));
+            let streams = vec![sp(Dir::Bi, 2500, 900), sp(Dir::Uni, 2200, 700)];
+            add(
+                name.into(),
+                &move |c| {
+                    c.server.stream_recv_window = Some(6000);
+                    c.client.stream_recv_window = Some(6000);
+                    c.server_params_override = Some(so.clone());
+                    c.client_params_override = Some(co.clone());
+                },
+                Plan { echo_len: Some(2400), ..plan(streams.clone()) },
+                Plan { echo_len: Some(2400), audit: true, streams: streams.clone(), ..Default::default() },
+                vec![],
+                (6, 30),
+            );
+        }
+    }
     // 0-RTT with remembered parameters: after a rejection the new (lower) limits are the credit;
     // after an acceptance the (higher) new ones. 0-RTT packets themselves are judged in C17.
     {
@@ -82,8 +108,8 @@ pub fn cases(thorough: bool) -> Vec<ECase> {
 }
 
 fn params(p: &StdPair) -> (Vec<u8>, Vec<u8>) {
-    let c = p.keylog.last(proto::Side::Client).map(|s| s.my_params).unwrap_or_default();
-    let s = p.keylog.last(proto::Side::Server).map(|s| s.my_params).unwrap_or_default();
+    let c = p.keylog.last(proto::Side::Client).map(|s| s.sent_params).unwrap_or_default();
+    let s = p.keylog.last(proto::Side::Server).map(|s| s.sent_params).unwrap_or_default();
     (c, s)
 }
 
